@@ -82,6 +82,7 @@ def lemma_obligations(sp):
     from .calls import lemma_formula
     ctx = Ctx(f"lemma:{sp.name}", REGISTRY)
     ex = Exec(ctx, sp.file, contract=None, spec_mode=True)
+    ex.max_unfold = getattr(sp, "unfold", 2)
     ex.fn_stack = [(sp.node(), None)]
     from .core import Facts
     facts = Facts()
